@@ -731,6 +731,9 @@ where
         // Set status to disconnected
         self.status = ConnectionStatus::Disconnected;
 
+        // Drop a partially received frame: it belongs to the closed transport
+        self.packet_builder.reset();
+
         // Clear topic alias management
         self.topic_alias_send = None;
         self.topic_alias_recv = None;
